@@ -302,6 +302,11 @@ func NewHTTPTargeter(src io.Reader, body []byte, hdr http.Header) Targeter {
 		}
 		tgt.URL = tokens[1]
 		line = strings.TrimSpace(sc.Peek())
+		for strings.HasPrefix(line, "#") {
+			// Comments are ignored by the look-ahead too: drop the peeked line.
+			sc.Text()
+			line = strings.TrimSpace(sc.Peek())
+		}
 		if line == "" || startsWithHTTPMethod(line) {
 			return nil
 		}
